@@ -21,7 +21,14 @@ def main():
     except Exception as e:
         print('HARNESS-ERROR: /repo does not import: %r' % (e,))
         sys.exit(3)
-    sys.exit(core.run_property(a.prop, a.tier, a.only, a.workers))
+    try:
+        rc = core.run_property(a.prop, a.tier, a.only, a.workers)
+    except Exception:
+        import traceback
+        traceback.print_exc()
+        print('HARNESS-ERROR: the check machinery itself failed (not a verdict about /repo)')
+        rc = 3
+    sys.exit(rc)
 
 
 main()
